@@ -626,9 +626,9 @@ class L25:
             if damage:
                 k = r.random()
                 if k < 0.10: val = 511                                        # unused (EN 300 706 10.5.1.2)
-                elif k < 0.14: val = r.choice([507, 508, 510])                # out of range
-                elif k < 0.19: val = min(506, p + 1)                          # points into the body, not at a definition
-                elif k < 0.22: val = r.randrange(507)
+                elif k < 0.17: val = r.choice([507, 508, 508, 509, 510])      # out of range
+                elif k < 0.22: val = min(506, p + 1)                          # points into the body, not at a definition
+                elif k < 0.25: val = r.randrange(507)
             table[(o["pp"], i, o["half"])] = val
             addr = 40 + o["pp"] + r.choice([0, 4, 8, 16])
             dat = self.s1[page] | (o["half"] << 4) | (o["grp"] << 5)
